@@ -399,6 +399,215 @@ fn check_bad(c: &BadCase, obs: &mut Obs) -> Result<(), String> {
     Ok(())
 }
 
+// ------------------------------------------------------------------------------------------
+// wide structured circuits (53-64 qubits): the output distribution is uniform over an affine
+// subspace, so every probability is known in closed form although no state vector fits
+
+#[derive(Clone, Debug, Serialize, Deserialize)]
+pub struct WideCase {
+    pub n: usize,
+    /// per qubit: 0 = |0>, 1 = x (|1>), 2 = h (free bit), 3 = copy of a free qubit (cx), 4 = negated copy
+    pub kinds: Vec<u8>,
+    pub src: Vec<u16>,
+    pub shots: u8,
+    pub sample_seed: u64,
+    pub bss: bool,
+    pub parallel: bool,
+}
+
+fn check_wide(c: &WideCase, obs: &mut Obs) -> Result<(), String> {
+    let n = c.n.clamp(53, 64);
+    // resolve: expr[q] = (constant bit, Some(free qubit index) or None)
+    let mut kind: Vec<u8> = (0..n).map(|q| c.kinds.get(q).copied().unwrap_or(2) % 5).collect();
+    let free: Vec<usize> = (0..n).filter(|&q| kind[q] == 2).collect();
+    if free.is_empty() {
+        kind[0] = 2;
+    }
+    let free: Vec<usize> = (0..n).filter(|&q| kind[q] == 2).collect();
+    let mut expr: Vec<(bool, Option<usize>)> = vec![(false, None); n];
+    let mut text = format!("OPENQASM 2.0;\ninclude \"qelib1.inc\";\nqreg q[{n}];\n");
+    for &q in &free {
+        text += &format!("h q[{q}];\n");
+        expr[q] = (false, Some(q));
+    }
+    for q in 0..n {
+        match kind[q] {
+            1 => {
+                text += &format!("x q[{q}];\n");
+                expr[q] = (true, None);
+            }
+            3 | 4 => {
+                let s = free[crate::gen::idx(c.src.get(q).copied().unwrap_or(0), free.len())];
+                text += &format!("cx q[{s}], q[{q}];\n");
+                if kind[q] == 4 {
+                    text += &format!("x q[{q}];\n");
+                }
+                expr[q] = (kind[q] == 4, Some(s));
+            }
+            _ => {}
+        }
+    }
+    let nfree = free.len();
+    obs.class_if(nfree >= 53, "free-bits>=53");
+    obs.nontrivial();
+    let path = tmp_path("c06-wide");
+    std::fs::write(&path, &text).map_err(|e| format!("harness: {e}"))?;
+    let file = path.to_string_lossy().to_string();
+    let mut mth: Vec<String> = vec![];
+    if c.bss {
+        mth.push("--bss".into());
+    }
+    if c.parallel {
+        mth.push("--parallel".into());
+        mth.push("2".into());
+    }
+    let result = (|| -> Result<(), String> {
+        // sampling with the trace
+        let shots = 1 + c.shots as usize % 2;
+        let trace = tmp_path("c06-wide-trace");
+        let _ = std::fs::remove_file(&trace);
+        let mut args: Vec<String> = vec!["sim".into(), file.clone(), "-s".into(), shots.to_string()];
+        args.extend(mth.iter().cloned());
+        let r = run_cli(
+            &args,
+            &[
+                ("QUIZX_VERIF_SAMPLE_TRACE", trace.to_string_lossy().to_string()),
+                ("QUIZX_VERIF_SAMPLE_SEED", c.sample_seed.to_string()),
+            ],
+        );
+        let tr = std::fs::read_to_string(&trace).unwrap_or_default();
+        let _ = std::fs::remove_file(&trace);
+        let what = format!("quizx sim -s {shots} {} on {n} qubits ({nfree} free bits)", mth.join(" "));
+        if r.code != Some(0) {
+            return Err(format!("{what}: exit {:?}, stderr: {}", r.code, r.stderr.chars().take(300).collect::<String>()));
+        }
+        let lines: Vec<&str> = r.stdout.lines().collect();
+        if lines.len() != shots {
+            return Err(format!("{what}: printed {} lines", lines.len()));
+        }
+        let draws: Vec<(Vec<bool>, f64)> = tr
+            .lines()
+            .filter_map(|l| {
+                let (a, b) = l.split_once(' ')?;
+                let bits = a.trim_matches(|c| c == '[' || c == ']').chars().map(|c| c == '1').collect();
+                Some((bits, b.trim().parse::<f64>().ok()?))
+            })
+            .collect();
+        if draws.len() != shots * n {
+            return Err(format!("{what}: harness: trace has {} draws, expected {}", draws.len(), shots * n));
+        }
+        let mut a_sample: Vec<bool> = vec![];
+        for (s, line) in lines.iter().enumerate() {
+            if line.len() != n {
+                return Err(format!("{what}: sample has length {}", line.len()));
+            }
+            let sample: Vec<bool> = line.chars().map(|c| c == '1').collect();
+            // consistency = non-zero probability
+            let mut val: Vec<Option<bool>> = vec![None; n];
+            for q in 0..n {
+                let (k, v) = expr[q];
+                match v {
+                    None => {
+                        if sample[q] != k {
+                            return Err(format!("{what}: printed sample {line} has probability 0 (bit {q} is the constant {})", k as u8));
+                        }
+                    }
+                    Some(f) => {
+                        let fv = sample[q] ^ k;
+                        match val[f] {
+                            None => val[f] = Some(fv),
+                            Some(x) if x != fv => {
+                                return Err(format!("{what}: printed sample {line} has probability 0 (bit {q} must be tied to bit {f})"));
+                            }
+                            _ => {}
+                        }
+                    }
+                }
+            }
+            for k in 0..n {
+                let (prefix, p_used) = &draws[s * n + k];
+                if prefix[..] != sample[..k] {
+                    return Err(format!("{what}: draw {k} of shot {s} was conditioned on a prefix that is not the printed sample's"));
+                }
+                // conditional probability of bit k = 1 given the prefix
+                let (kc, v) = expr[k];
+                let cond = match v {
+                    None => kc as u8 as f64,
+                    Some(f) => {
+                        // is the free variable already determined by an earlier bit?
+                        match (0..k).find(|&j| expr[j].1 == Some(f)) {
+                            Some(j) => ((sample[j] ^ expr[j].0) ^ kc) as u8 as f64,
+                            None => 0.5,
+                        }
+                    }
+                };
+                if (p_used - cond).abs() > 1e-6 {
+                    return Err(format!(
+                        "{what}: bit {k} (after a prefix of probability 2^-{}) was drawn with probability {p_used}, the conditional probability is {cond}",
+                        (0..k).filter_map(|j| expr[j].1).collect::<std::collections::BTreeSet<_>>().len()
+                    ));
+                }
+            }
+            a_sample = sample;
+        }
+        // amplitude of the sampled (consistent) string and of an inconsistent one
+        let bits: String = a_sample.iter().map(|&b| if b { '1' } else { '0' }).collect();
+        let mut args: Vec<String> = vec!["sim".into(), file.clone(), "-a".into(), bits.clone()];
+        args.extend(mth.iter().cloned());
+        let r = run_cli(&args, &[]);
+        if r.code != Some(0) {
+            return Err(format!("quizx sim -a on {n} qubits: exit {:?}: {}", r.code, r.stderr.chars().take(200).collect::<String>()));
+        }
+        let v: f64 = r.stdout.trim().parse().map_err(|_| format!("amplitude output {:?}", r.stdout))?;
+        let want = 2f64.powi(-(nfree as i32));
+        if (v - want).abs() > 1e-9 * want {
+            return Err(format!("quizx sim -a <consistent string> on {n} qubits printed {v}, expected 2^-{nfree} = {want}"));
+        }
+        // flip a constant or tied bit -> probability 0
+        if let Some(q) = (0..n).find(|&q| kind[q] != 2) {
+            let mut b2 = a_sample.clone();
+            b2[q] = !b2[q];
+            let bits2: String = b2.iter().map(|&b| if b { '1' } else { '0' }).collect();
+            let mut args: Vec<String> = vec!["sim".into(), file.clone(), "-a".into(), bits2];
+            args.extend(mth.iter().cloned());
+            let r = run_cli(&args, &[]);
+            let v: f64 = r.stdout.trim().parse().map_err(|_| format!("amplitude output {:?}", r.stdout))?;
+            if v.abs() > 1e-30 {
+                return Err(format!("quizx sim -a <inconsistent string> on {n} qubits printed {v}, expected 0"));
+            }
+        }
+        // expectation of a Z string: product over its support
+        let zs: Vec<bool> = (0..n).map(|q| (c.sample_seed >> (q % 60)) & 1 == 1 && q % 3 != 1).collect();
+        let mut konst = false;
+        let mut vars: std::collections::BTreeSet<usize> = Default::default();
+        for q in 0..n {
+            if zs[q] {
+                konst ^= expr[q].0;
+                if let Some(f) = expr[q].1 {
+                    if !vars.insert(f) {
+                        vars.remove(&f);
+                    }
+                }
+            }
+        }
+        let want = if vars.is_empty() { if konst { -1.0 } else { 1.0 } } else { 0.0 };
+        let ps: String = zs.iter().map(|&z| if z { 'Z' } else { 'I' }).collect();
+        let mut args: Vec<String> = vec!["sim".into(), file.clone(), "-e".into(), ps];
+        args.extend(mth.iter().cloned());
+        let r = run_cli(&args, &[]);
+        if r.code != Some(0) {
+            return Err(format!("quizx sim -e on {n} qubits: exit {:?}: {}", r.code, r.stderr.chars().take(200).collect::<String>()));
+        }
+        let v: f64 = r.stdout.trim().parse().map_err(|_| format!("expectation output {:?}", r.stdout))?;
+        if (v - want).abs() > 1e-9 {
+            return Err(format!("quizx sim -e <Z string> on {n} qubits printed {v}, expected {want}"));
+        }
+        Ok(())
+    })();
+    let _ = std::fs::remove_file(&path);
+    result
+}
+
 pub fn def(ctx: &Ctx) -> PropertyDef {
     let t = ctx.tier;
     let kinds = |general: bool| {
@@ -458,6 +667,40 @@ pub fn def(ctx: &Ctx) -> PropertyDef {
         sections: vec![
             Section::random("clifford-t", ctx.cases(120, 3000), mk(false, t.pick(14, 22)), check),
             Section::random("general-phases", ctx.cases(30, 600), mk(true, 8), check),
+            Section::random(
+                "wide-structured",
+                ctx.cases(3, 60),
+                || {
+                    (
+                        53usize..=64,
+                        // mostly free bits with a few exceptions, so that prefixes of probability
+                        // below 2^-52 (and below 2^-60) are the common case
+                        prop::collection::vec((any::<u16>(), prop_oneof![Just(0u8), Just(1u8), Just(3u8), Just(3u8), Just(4u8)]), 0..9)
+                            .prop_map(|ex| {
+                                let mut kinds = vec![2u8; 64];
+                                for (p, k) in ex {
+                                    kinds[crate::gen::idx(p, 64)] = k;
+                                }
+                                kinds
+                            }),
+                        prop::collection::vec(any::<u16>(), 64),
+                        0u8..2,
+                        any::<u64>(),
+                        any::<bool>(),
+                        any::<bool>(),
+                    )
+                        .prop_map(|(n, kinds, src, shots, sample_seed, bss, parallel)| WideCase {
+                            n,
+                            kinds,
+                            src,
+                            shots,
+                            sample_seed,
+                            bss,
+                            parallel,
+                        })
+                },
+                check_wide,
+            ),
             Section::random(
                 "malformed",
                 ctx.cases(120, 2000),
